@@ -476,4 +476,9 @@ class SchemaGen:
         return s, w
 
     def top(self):
-        return self.any_schema(self.max_depth)
+        for _ in range(20):
+            try:
+                return self.any_schema(self.max_depth)
+            except DeclarationError:
+                self._count("generator_declaration_rejected")
+        return schema.none, None
